@@ -7,6 +7,7 @@ mod util;
 mod sym;
 mod rs;
 mod place;
+mod dec;
 
 use util::*;
 
@@ -20,6 +21,14 @@ fn dispatch(op: &str, a: &[&str]) -> String {
         "gf_divrow" => rs::gf_divrow(a),
         "gf_misc" => rs::gf_misc(a),
         "generator" => rs::generator(a),
+        "decode_data" => dec::decode_data(a),
+        "decode_str" => dec::decode_str(a),
+        "read_eci" => dec::read_eci(a),
+        "write_eci" => dec::write_eci(a),
+        "latin1_to_utf8" => dec::latin1_to_utf8(a),
+        "utf8_to_latin1" => dec::utf8_to_latin1(a),
+        "from_utf8" => dec::from_utf8(a),
+        "to_utf8" => dec::to_utf8(a),
         "place_table" => place::place_table(a),
         "place_write" => place::place_write(a),
         "place_read" => place::place_read(a),
